@@ -3,6 +3,7 @@ import traceback
 import z3
 
 from .core import (State, Sym, Arr, Arr2, LArr, SList, PyList, ObjRec, Ref,
+                   FlatList,
                    OutsideSubset, Raised, I, B)
 from .symexec import View
 from . import arrays as A
@@ -73,6 +74,8 @@ def cells_equal(ex, so, co, sn, cn):
             if e is not None:
                 fs.append(e)
         return z3.And(*fs) if fs else None
+    if isinstance(co, FlatList) and isinstance(cn, FlatList):
+        return z3.And(co.cnt == cn.cnt, A.arr_eq(co.flat, cn.flat))
     if isinstance(co, PyList) and isinstance(cn, PyList):
         if len(co.items) != len(cn.items):
             return z3.BoolVal(False)
@@ -126,9 +129,22 @@ def verify_function(ex, qualname, contract, make_env, frame_obj='self',
                         old.env[frame_obj], Ref):
                     ro = old.cell(old.env[frame_obj])
                     rn = o.cell(old.env[frame_obj])
+                    from .npmodel import MaybeNone
+                    arg_refs = set()
+                    for a in contract.mod_args:
+                        v = old.env.get(a)
+                        if isinstance(v, MaybeNone):
+                            v = v.val
+                        if isinstance(v, Ref):
+                            arg_refs.add(v.oid)
                     for fld in sorted(set(ro.fields) | set(rn.fields)):
                         if fld in contract.mod_fields:
                             continue
+                        fv = ro.fields.get(fld)
+                        if isinstance(fv, MaybeNone):
+                            fv = fv.val
+                        if isinstance(fv, Ref) and fv.oid in arg_refs:
+                            continue    # modified through the declared alias
                         if fld not in ro.fields or fld not in rn.fields:
                             cx.oblige(o, 'frame/' + fld, z3.BoolVal(False),
                                       kind='frame')
